@@ -1096,7 +1096,7 @@ def run(chk):
     chk.rule('C05.merge', '{**A, **B} table merges have no unit key with differing spelling lists', floor=4, control=True)
     chk.rule('C05.side', '*PrefixList tables are wired into prefix_list and *SuffixList tables into suffix_list', floor=35, control=True)
     chk.rule('C05.fresh', 'the map add_dict_to_unit_map binds into is a fresh per-instance dict when the constructors fill it '
-             '(not a class-level / module-level object shared by all configurations)', floor=20, control=True)
+             '(not a class-level / module-level object shared by all configurations)', floor=1, control=True)
     chk.rule('C05.shadow', 'replaying add_dict_to_unit_map in order, every spelling is bound to the unit whose entry lists it',
              floor=9000, control=True)
     chk.rule('C05.key', "every bound spelling is found again by the parser's own key normalisation (connector-token strip, "
